@@ -7,8 +7,9 @@ out=/verif/seeded/RESULTS.txt
 [ -n "$*" ] || : > $out
 for id in $ids; do
   d=/verif/seeded/$id
+  chk=${id%%-*}          # C16-2 is the second seeded change for property C16
   p=$d/patch.diff; [ -f $d/patch_rebased.diff ] && p=$d/patch_rebased.diff
-  /verif/tools/mutant_run.sh seedrun $p $id $tier --keep > /tmp/seedrun-$id.log 2>&1; rc=$?
+  /verif/tools/mutant_run.sh seedrun $p $chk $tier --keep > /tmp/seedrun-$id.log 2>&1; rc=$?
   keys=$(grep -o 'key=.*' /tmp/seedrun-$id.log | sort | uniq -c | sort -rn | head -3 | tr -s ' ' | tr '\n' ';')
   case $rc in 1) v=CAUGHT;; 0) v=MISSED;; *) v="MACHINERY(rc=$rc)";; esac
   echo "$v $id ($tier) :: $keys" | tee -a $out
